@@ -20,6 +20,7 @@ namespace ab = amgcl::backend;
 typedef std::complex<double> cplx;
 typedef amgcl::static_matrix<double, 2, 2> blk2;
 typedef amgcl::static_matrix<double, 3, 3> blk3;
+typedef amgcl::static_matrix<std::complex<double>, 2, 2> cblk2; // block AND complex: the adjoint transposes the block and conjugates its entries
 
 // ---- value-type helpers: expand a value into a b x b complex block -------------------------------
 template <class V> struct VT;
@@ -41,6 +42,14 @@ template <int N> struct VT<amgcl::static_matrix<double, N, N>> {
     static M gen(Tape &t, int m) { M v; bool nz = false; for (int i = 0; i < N * N; ++i) { v(i) = static_cast<double>(t.u(-m, m)); nz = nz || v(i) != 0; } if (!nz) v(0) = 1; return v; }
     static cplx at(const M &v, int i, int j) { return cplx(v(i, j), 0); }
     static const char *name() { return N == 2 ? "blk2" : "blk3"; }
+};
+
+template <int N> struct VT<amgcl::static_matrix<cplx, N, N>> {
+    typedef amgcl::static_matrix<cplx, N, N> M;
+    static const int B = N;
+    static M gen(Tape &t, int m) { M v; bool nz = false; for (int i = 0; i < N * N; ++i) { v(i) = cplx(static_cast<double>(t.u(-m, m)), static_cast<double>(t.u(-m, m))); nz = nz || v(i) != cplx(0); } if (!nz) v(0) = 1; return v; }
+    static cplx at(const M &v, int i, int j) { return v(i, j); }
+    static const char *name() { return "cblk2"; }
 };
 
 template <class V>
@@ -455,11 +464,14 @@ static std::vector<Prop> props() {
         Prop("transpose_double", prop_transpose<double>, 1500, 10000, 100, 30, {1}, 1, 2),
         Prop("transpose_complex", prop_transpose<cplx>, 800, 6000, 100, 30, {1}, 1, 2),
         Prop("transpose_blk3", prop_transpose<blk3>, 500, 4000, 100, 60, {1}, 1, 2),
+        Prop("transpose_cblk2", prop_transpose<cblk2>, 500, 4000, 100, 60, {1}, 1, 2),
+        Prop("spgemm_cblk2", prop_spgemm<cblk2>, 300, 2500, 100, 60, {1, 17}, 1, 2),
         Prop("sum_double", prop_sum<double>, 1500, 10000, 100, 30, {1, 4}, 1, 2),
         Prop("sum_blk2", prop_sum<blk2>, 500, 4000, 100, 60, {1}, 1, 2),
         Prop("scale_sort_diag_double", prop_scale_sort_diag<double>, 1500, 10000, 100, 30, {1, 4}, 1, 2),
         Prop("scale_sort_diag_complex", prop_scale_sort_diag<cplx>, 500, 4000, 100, 30, {1}, 1, 2),
         Prop("scale_sort_diag_blk2", prop_scale_sort_diag<blk2>, 500, 4000, 100, 60, {1}, 1, 2),
+        Prop("scale_sort_diag_cblk2", prop_scale_sort_diag<cblk2>, 300, 2500, 100, 60, {1}, 1, 1),
         Prop("copy", prop_copy, 1500, 10000, 100, 30, {1, 4}, 1, 2),
         Prop("pointwise", prop_pointwise, 3000, 30000, 100, 30, {1, 4}, 1, 4),
         Prop("pointwise_blockval", prop_pointwise_blockval, 500, 4000, 100, 30, {1}, 1, 1),
